@@ -135,18 +135,24 @@ func c07(r *core.Report, p *core.Prog, thorough bool) {
 	setName := "(*" + pkgCache + ".TransactionCache).Set"
 	remName := "(*" + pkgCache + ".TransactionCache).Remove"
 	getName := "(*" + pkgCache + ".TransactionCache).Get"
+	lift := func(fn *ssa.Function, names ...string) []Lifted { return LiftCalls(fn, core.NameIs(names...), 1) }
 	// ---- insert
-	w := findCalls(ins, "(*"+typeSCtx+").setNodeValue")
-	s := findCalls(ins, setName)
-	if r.Check(len(w) == 1 && len(s) == 1, "C07.insert", "InsertTrieNode:calls", p.Pos(ins.Pos()), fmt.Sprintf("setNodeValue=%d Cache.Set=%d", len(w), len(s))) {
-		r.Check(core.ErrLeadsToFailure(w[0]) && Before(w[0], s[0]), "C07.insert", "InsertTrieNode:trie-first", p.Pos(s[0].Pos()), "the cache is updated only after the trie write succeeded")
-		wa, sa := core.CallArgs(w[0].Common()), core.CallArgs(s[0].Common())
+	w := lift(ins, "(*"+typeSCtx+").setNodeValue")
+	s := lift(ins, setName)
+	if r.Check(len(w) == 1 && len(s) == 1, "C07.insert", "InsertTrieNode:calls", p.Pos(ins.Pos()), fmt.Sprintf("setNodeValue=%d Cache.Set=%d (directly or in a helper of the package)", len(w), len(s))) {
+		r.Check(w[0].ErrFails() && liftedBefore(w[0], s[0]), "C07.insert", "InsertTrieNode:trie-first", p.Pos(s[0].Pos()), "the cache is updated only after the trie write succeeded")
+		wa, sa := w[0].CallArgs(), s[0].CallArgs()
 		r.Check(describe(wa[0]) == "key" && describe(sa[0]) == "key", "C07.insert", "InsertTrieNode:same-key", p.Pos(s[0].Pos()), "trie key "+describe(wa[0])+", cache key "+describe(sa[0]))
 		nodeOK := false
-		for _, rt := range core.Slice(sa[1]) {
+		inner, bind := core.Unbind(sa[1])
+		for _, rt := range core.Slice(inner) {
 			if c, ok := rt.V.(*ssa.Extract); ok {
 				if cc, ok := c.Tuple.(*ssa.Call); ok && core.CalleeName(cc.Common()) == pkgCache+".Cacheable" {
-					for _, r2 := range core.Slice(cc.Call.Args[0]) {
+					arg := cc.Call.Args[0]
+					if bind != nil {
+						arg = core.BindValue(arg, bind)
+					}
+					for _, r2 := range SliceB(arg) {
 						if r2.Desc == "param:node" {
 							nodeOK = true
 						}
@@ -157,54 +163,68 @@ func c07(r *core.Report, p *core.Prog, thorough bool) {
 		r.Check(nodeOK && describe(wa[1]) == "node", "C07.insert", "InsertTrieNode:same-value", p.Pos(s[0].Pos()), "the cached value is the value written to the trie")
 	}
 	// ---- delete
-	d := findCalls(del, "(*"+typeSCtx+").deleteNode")
-	rm := findCalls(del, remName)
+	d := lift(del, "(*"+typeSCtx+").deleteNode")
+	rm := lift(del, remName)
 	if r.Check(len(d) == 1 && len(rm) == 1, "C07.delete", "DeleteTrieNode:calls", p.Pos(del.Pos()), fmt.Sprintf("deleteNode=%d Cache.Remove=%d", len(d), len(rm))) {
-		r.Check(core.ErrLeadsToFailure(d[0]) && Before(d[0], rm[0]), "C07.delete", "DeleteTrieNode:trie-first", p.Pos(rm[0].Pos()), "the cache entry is removed only after the trie delete succeeded")
-		r.Check(describe(core.CallArgs(d[0].Common())[0]) == "key" && describe(core.CallArgs(rm[0].Common())[0]) == "key", "C07.delete", "DeleteTrieNode:same-key", p.Pos(rm[0].Pos()), "same key on both")
-		ok, wmsg := MustPass(p, del, rm[0])
-		r.Check(ok, "C07.delete", "DeleteTrieNode:always-removes", p.Pos(rm[0].Pos()), "every successful delete removes the cache entry; "+wmsg)
+		r.Check(d[0].ErrFails() && liftedBefore(d[0], rm[0]), "C07.delete", "DeleteTrieNode:trie-first", p.Pos(rm[0].Pos()), "the cache entry is removed only after the trie delete succeeded")
+		r.Check(describe(d[0].CallArgs()[0]) == "key" && describe(rm[0].CallArgs()[0]) == "key", "C07.delete", "DeleteTrieNode:same-key", p.Pos(rm[0].Pos()), "same key on both")
+		ok, wmsg := MustPass(p, del, rm[0].Site)
+		r.Check(ok && rm[0].MustInHelpers(p), "C07.delete", "DeleteTrieNode:always-removes", p.Pos(rm[0].Pos()), "every successful delete removes the cache entry; "+wmsg)
 	}
 	// ---- get
 	g := findCalls(get, getName)
-	gv := findCalls(get, "(*"+typeSCtx+").getNodeValue")
-	gs := findCalls(get, setName)
+	gv := lift(get, "(*"+typeSCtx+").getNodeValue")
+	gs := lift(get, setName)
 	if r.Check(len(g) == 1 && len(gv) == 1 && len(gs) == 1, "C07.get", "GetTrieNode:calls", p.Pos(get.Pos()), fmt.Sprintf("Cache.Get=%d getNodeValue=%d Cache.Set=%d", len(g), len(gv), len(gs))) {
-		// uses of the cached value: only as argument of CopyFrom
+		// uses of the cached value: only as argument of CopyFrom (directly, or as the
+		// parameter of a package helper that uses it only so)
 		var cv ssa.Value
 		for _, ref := range *g[0].Referrers() {
 			if e, ok := ref.(*ssa.Extract); ok && e.Index == 0 {
 				cv = e
 			}
 		}
-		okUse := cv != nil
-		if cv != nil {
-			for _, ref := range *cv.Referrers() {
+		nCopy := 0
+		var onlyCopied func(v ssa.Value, depth int) bool
+		onlyCopied = func(v ssa.Value, depth int) bool {
+			if v.Referrers() == nil {
+				return false
+			}
+			for _, ref := range *v.Referrers() {
 				switch u := ref.(type) {
 				case *ssa.DebugRef:
 				case *ssa.MakeInterface, *ssa.ChangeInterface:
-					for _, r2 := range *u.(ssa.Value).Referrers() {
-						ci, ok := r2.(ssa.CallInstruction)
-						if !ok || core.MethodName(ci.Common()) != "CopyFrom" {
-							okUse = false
-						}
+					if !onlyCopied(u.(ssa.Value), depth) {
+						return false
 					}
 				case ssa.CallInstruction:
-					if core.MethodName(u.Common()) != "CopyFrom" {
-						okUse = false
+					cc := u.Common()
+					if core.MethodName(cc) == "CopyFrom" {
+						nCopy++
+						continue
+					}
+					h := core.StaticCallee(cc)
+					if h == nil || h.Blocks == nil || h.Pkg != get.Pkg || depth <= 0 {
+						return false
+					}
+					for i, a := range cc.Args {
+						if a == v && (i >= len(h.Params) || !onlyCopied(h.Params[i], depth-1)) {
+							return false
+						}
 					}
 				default:
-					okUse = false
+					return false
 				}
 			}
+			return true
 		}
+		okUse := cv != nil && onlyCopied(cv, 1)
 		r.Check(okUse, "C07.get", "GetTrieNode:hit-copied-out", p.Pos(g[0].Pos()), "a cache hit may only be copied into the caller's value with CopyFrom")
 		// CopyFrom false → panic/failure
-		cf := methodCalls(get, "CopyFrom")
-		r.Check(len(cf) == 1, "C07.get", "GetTrieNode:copy-call", p.Pos(get.Pos()), fmt.Sprintf("%d CopyFrom calls", len(cf)))
+		r.Check(nCopy == 1, "C07.get", "GetTrieNode:copy-call", p.Pos(get.Pos()), fmt.Sprintf("%d CopyFrom calls on the cached value", nCopy))
 		// miss path
-		r.Check(core.ErrLeadsToFailure(gv[0]) && Before(gv[0], gs[0]), "C07.get", "GetTrieNode:cache-after-read", p.Pos(gs[0].Pos()), "a miss is cached only after the trie read succeeded")
-		ka, kb, kc := describe(core.CallArgs(g[0].Common())[0]), describe(core.CallArgs(gv[0].Common())[0]), describe(core.CallArgs(gs[0].Common())[0])
+		r.Check(gv[0].ErrFails() && liftedBefore(gv[0], gs[0]), "C07.get", "GetTrieNode:cache-after-read", p.Pos(gs[0].Pos()), "a miss is cached only after the trie read succeeded")
+		ka, kb, kc := describe(core.CallArgs(g[0].Common())[0]), describe(gv[0].CallArgs()[0]), describe(gs[0].CallArgs()[0])
 		r.Check(ka == "key" && kb == "key" && kc == "key", "C07.get", "GetTrieNode:same-key", p.Pos(gs[0].Pos()), "lookup "+ka+", trie "+kb+", cache "+kc)
 		// the miss path must not be taken on a hit: Set dominated by ok==false of the cache lookup
 		missOnly := false
@@ -215,17 +235,38 @@ func c07(r *core.Report, p *core.Prog, thorough bool) {
 		}
 		r.Check(missOnly, "C07.get", "GetTrieNode:set-on-miss-only", p.Pos(gs[0].Pos()), "the trie value is cached only when the cache had no entry")
 	}
-	// ---- who
+	// ---- who: the three accessors, and helpers of the package called by nothing else
 	n := 0
 	allowed := map[string]bool{ins.String(): true, del.String(): true, get.String(): true}
+	callersOf := func(h *ssa.Function) []*ssa.Function {
+		var out []*ssa.Function
+		for _, fn := range p.ModFuncs() {
+			for _, cs := range core.CallsIn(fn, false, nil) {
+				if core.StaticCallee(cs.Common()) == h {
+					out = append(out, fn)
+				}
+			}
+		}
+		return out
+	}
 	for _, fn := range p.ModFuncs() {
 		for _, c := range append(findCalls(fn, setName), findCalls(fn, remName)...) {
 			n++
 			en := core.EnclosingNamed(fn).String()
-			r.Check(allowed[en] || isTooling(p, fn), "C07.who", "cache-writer:"+en, p.Pos(c.Pos()), "transaction cache written outside StateContext's accessors")
+			ok := allowed[en] || isTooling(p, fn)
+			if !ok && fn.Parent() == nil && fn.Pkg == ins.Pkg {
+				cs := callersOf(fn)
+				ok = len(cs) > 0
+				for _, cf := range cs {
+					if !allowed[core.EnclosingNamed(cf).String()] {
+						ok = false
+					}
+				}
+			}
+			r.Check(ok, "C07.who", "cache-writer:"+en, p.Pos(c.Pos()), "transaction cache written outside StateContext's accessors (or a helper only they call)")
 		}
 	}
-	r.Floor("C07.who", "TransactionCache.Set/Remove call sites", n, 3)
+	r.Floor("C07.who", "TransactionCache.Set/Remove call sites", n, 2)
 	// ---- clone
 	vi := p.Type(pkgCache, "Value")
 	nClone := 0
